@@ -44,6 +44,10 @@ type PathView struct {
 	n *pnode
 }
 
+// Precise reports whether the view has a path to resolve values on (false in
+// the path-insensitive phases, where predicates must answer "possibly").
+func (pv PathView) Precise() bool { return pv.q != nil }
+
 // Resolve follows phis along the path to the operand selected.
 func (pv PathView) Resolve(v ssa.Value) ssa.Value {
 	if pv.q == nil {
